@@ -1,0 +1,10 @@
+//go:build verif
+
+// Contracts for package register (HTTP provider middlewares), checked by /verif/govc. Comment-only: no code.
+package register
+
+// A middleware is registered under the middleware interface type, with the given name, constructor and optional default config.
+//@ func HTTPMW
+//@ props C18 C09
+//@ may_panic true
+//@ at call register.RegisterPtr assert [middleware-interface] typeis(arg(ptr), *middleware.Middleware) && arg(name) == name0 && arg(newPlugin) == mwConstructor0 && arg(defaultConfigOptional) == defaultConfigOptional0
